@@ -19,10 +19,10 @@ Definition range16 : list N :=
 Lemma range16_In w : w < 65536 -> In w range16.
 Proof.
   intros Hw. unfold range16. apply in_flat_map. exists (w / 256). split.
-  - apply n_range_In. split; [lia|]. cbn [N.add]. apply N.div_lt_upper_bound; lia.
+  - apply n_range_In. split; [apply N.le_0_l|]. rewrite N.add_0_l. apply N.div_lt_upper_bound; [discriminate|exact Hw].
   - apply in_map_iff. exists (w mod 256). split.
-    + pose proof (N.div_mod' w 256) as H. lia.
-    + apply n_range_In. split; [lia|]. cbn [N.add]. apply N.mod_lt. lia.
+    + rewrite N.mul_comm. symmetry. apply N.div_mod'.
+    + apply n_range_In. split; [apply N.le_0_l|]. rewrite N.add_0_l. apply N.mod_lt. discriminate.
 Qed.
 
 (* ------------------------------------------------------------------ the whole 16-bit domain, by computation *)
